@@ -12,6 +12,19 @@
 (*                   nC     - how often the cache object was handed to a claimant (returned by      *)
 (*                            pop() / passed to a retrieve_cache handler) in this registration,     *)
 (*                   hpend  - a coroutine handler matched by retrieve_cache whose body has not run. *)
+(*                   shutdown - the _shutdown flag RequestCache shares with its base class          *)
+(*                            TaskManager: raised by RequestCache.shutdown() *and* by the inherited *)
+(*                            public TaskManager.shutdown_task_manager() (action ShutdownTM), which *)
+(*                            cancels every time-out task but knows nothing of identifiers/futures; *)
+(*                   rcdown - RequestCache.shutdown() has been called.  What the statement demands  *)
+(*                            "after shutdown" is demanded from then on, whatever happened before   *)
+(*                            (also a task-manager teardown: the requests it froze, st "stopped",   *)
+(*                            are still registered and claimable; shutdown() drops them and cancels *)
+(*                            their futures).                                                       *)
+(* A cache may tie several futures to its request (register_future is a list append): fut[c] is the *)
+(* sequence of their states in registration order; anybody may complete / cancel one of them while  *)
+(* the request is outstanding (FutExt(c, j)); the time-out completes, shutdown() / a refused add()  *)
+(* cancel *every* future that is still pending (Sweep).                                             *)
 (*                                                                                                  *)
 (* The response path (retrieve_cache): the wrapper claims the cache (pop) and only then runs the    *)
 (* handler body.  The body is arbitrary overlay code: it may fail (raise) or re-enter the request   *)
@@ -28,7 +41,7 @@
 (*   gone   : done callback has run.                                                                *)
 (* Ready handles may run in any order here (asyncio: FIFO) - a superset of the real schedules.      *)
 (* Time is kept as 'remaining ticks' per armed timer; overdue timers may fire in any order.         *)
-EXTENDS Naturals, FiniteSets, TLC
+EXTENDS Naturals, FiniteSets, Sequences, TLC
 
 CONSTANTS NC,            \* cache objects 1..NC (registered in this order the first time)
           NI,            \* identities 1..NI : the (prefix, number) pairs
@@ -37,13 +50,20 @@ CONSTANTS NC,            \* cache objects 1..NC (registered in this order the fi
           Filters,       \* subset of {"all", "A"} : passthrough() without / with a class filter
           Nesting,       \* on_timeout callbacks may call pop / add
           ReAdds,        \* how often an ended cache *object* may be registered again
-          ExtFut,        \* a managed future may be completed by somebody else while the request is outstanding
+          ExtFut,        \* how many managed futures may have been completed by somebody else (while their request
+                         \* was outstanding) at any one time; 0 = not explored
           ReapOwnOnly,   \* TRUE : done_cb forgets only its own task (repaired).  FALSE : pinned taskmanager.py
           LateCancel,    \* TRUE : asyncio semantics.  FALSE : (control) cancelling a fired task has no effect
           HScripts,      \* subset of {"none", "raise", "pop", "add"} : what the body of a matched handler does
           CoHandlers,    \* coroutine handlers: matched (claimed) now, body runs as a later step
-          ClaimFirst     \* TRUE : retrieve_cache pops, then calls the handler.  FALSE : (control) it peeks, calls the
+          ClaimFirst,    \* TRUE : retrieve_cache pops, then calls the handler.  FALSE : (control) it peeks, calls the
                          \*        handler and pops only after the handler returned (never, when it raised)
+          TMShutdown,    \* the inherited TaskManager.shutdown_task_manager() may be called on the request cache
+          ShutGuard,     \* FALSE : RequestCache.shutdown() always does its work.  TRUE : (control) it returns at once
+                         \*         when the _shutdown flag is already raised
+          NFut,          \* at most this many (<= 3) futures are tied to a request (model checking; traces bring their own)
+          FutLoop        \* "all" : every pending managed future is completed / cancelled.  "break" : (control) the
+                         \*         loop over the managed futures stops at the first one that is already done
 
 Caches == 1..NC
 Idents == 1..NI
@@ -51,36 +71,42 @@ Live   == {"start", "armed", "fired"}
 Ended  == {"claimed", "timedout", "cleared", "halted"}
 
 VARIABLES ident,    \* Caches -> Idents            fixed per behaviour
-          futk,     \* Caches -> {"none","value","exc"}  kind of managed future registered with the cache
+          futk,     \* Caches -> Seq({"value","exc"})     the managed futures registered with the cache, in order:
+                    \*                                    on time-out set_result(value) / set_exception(exc)
           cls,      \* Caches -> {"A","B"}         cache class (for passthrough filters)
           st,       \* "new" | "outstanding" | "claimed" | "timedout" | "cleared" (clear) | "halted" (shutdown)
+                    \* | "stopped" (registered, time-out cancelled by shutdown_task_manager; shutdown() still due)
                     \* | "refused" (add returned None: duplicate) | "rejected" (add returned None: shut down)
           task,     \* "none" | "start" | "armed" | "fired" | "dying" | "gone"
           zombie,   \* Caches -> BOOLEAN
           tracked,  \* Caches -> BOOLEAN
           due,      \* start: delay that will be slept;  armed: ticks left;  otherwise 0
           table,    \* Idents -> Caches \cup {0}
-          fut,      \* "none" | "pending" | "result" | "exception" | "cancelled" | "ext"
+          fut,      \* Caches -> Seq({"pending", "result", "exception", "cancelled", "ext"})
           nT,       \* on_timeout invocations of the current registration
           late,     \* history: on_timeout was invoked after shutdown
-          shutdown,
+          shutdown, \* the _shutdown flag
+          rcdown,   \* RequestCache.shutdown() has been called
           ovr,      \* passthrough override: [on, t, filt]
           readds,
           nC,       \* claims of the current registration
           hpend     \* Caches \cup {0} : the cache a not yet run coroutine handler body was matched with
-vars == <<ident, futk, cls, st, task, zombie, tracked, due, table, fut, nT, late, shutdown, ovr, readds, nC, hpend>>
+vars == <<ident, futk, cls, st, task, zombie, tracked, due, table, fut, nT, late, shutdown, rcdown, ovr, readds, nC, hpend>>
 params == <<ident, futk, cls>>
 
 NoOvr == [on |-> FALSE, t |-> 0, filt |-> "all"]
 
-DefaultFutk == [c \in Caches |-> IF c % 3 = 1 THEN "value" ELSE IF c % 3 = 2 THEN "exc" ELSE "none"]
+MaxFut == 3
+FutLayout   == [c \in Caches |-> IF c % 3 = 1 THEN <<"value", "exc">>
+                                  ELSE IF c % 3 = 2 THEN <<"exc", "value", "value">> ELSE <<>>]
+DefaultFutk == [c \in Caches |-> SubSeq(FutLayout[c], 1, IF Len(FutLayout[c]) < NFut THEN Len(FutLayout[c]) ELSE NFut)]
 DefaultCls  == [c \in Caches |-> IF c % 2 = 1 THEN "A" ELSE "B"]
 
 InitDyn == /\ st = [c \in Caches |-> "new"] /\ task = [c \in Caches |-> "none"]
            /\ zombie = [c \in Caches |-> FALSE] /\ tracked = [c \in Caches |-> FALSE]
            /\ due = [c \in Caches |-> 0] /\ table = [i \in Idents |-> 0]
-           /\ fut = [c \in Caches |-> IF futk[c] = "none" THEN "none" ELSE "pending"]
-           /\ nT = [c \in Caches |-> 0] /\ late = FALSE /\ shutdown = FALSE /\ ovr = NoOvr /\ readds = 0
+           /\ fut = [c \in Caches |-> [j \in DOMAIN futk[c] |-> "pending"]]
+           /\ nT = [c \in Caches |-> 0] /\ late = FALSE /\ shutdown = FALSE /\ rcdown = FALSE /\ ovr = NoOvr /\ readds = 0
            /\ nC = [c \in Caches |-> 0] /\ hpend = 0
 
 Init == /\ ident \in [Caches -> Idents] /\ ident[1] = 1
@@ -93,6 +119,14 @@ Cur == [st |-> st, task |-> task, tracked |-> tracked, due |-> due, table |-> ta
 
 Apply(S) == /\ st' = S.st /\ task' = S.task /\ tracked' = S.tracked /\ due' = S.due
             /\ table' = S.table /\ fut' = S.fut /\ nT' = S.nT /\ late' = S.late /\ nC' = S.nC
+
+(* `for future, value in cache.managed_futures: if not future.done(): ...` - the futures of cache c that are still  *)
+(* pending get new[j]; the others are left alone                                                                  *)
+Sweep(fs, new) == [j \in DOMAIN fs |-> IF fs[j] = "pending" /\ (FutLoop = "all" \/ \A h \in 1..(j - 1) : fs[h] = "pending")
+                                       THEN new[j] ELSE fs[j]]
+TimeoutVals(c) == [j \in DOMAIN futk[c] |-> IF futk[c][j] = "exc" THEN "exception" ELSE "result"]
+Cancelled(c)   == [j \in DOMAIN futk[c] |-> "cancelled"]
+NoPending(fs)  == \A j \in DOMAIN fs : fs[j] # "pending"
 
 (* TaskManager.cancel_pending_task(cache) *)
 CancelTask(S, c) ==
@@ -112,7 +146,7 @@ EffDelay(c, d) == IF ovr.on /\ (ovr.filt = "all" \/ cls[c] = ovr.filt) THEN ovr.
 
 (* RequestCache.add(cache) *)
 DoAdd(S, c, d) ==
-  IF shutdown THEN [S EXCEPT !.st[c] = "rejected", !.nT[c] = 0, !.nC[c] = 0, !.fut[c] = IF @ = "pending" THEN "cancelled" ELSE @]
+  IF shutdown THEN [S EXCEPT !.st[c] = "rejected", !.nT[c] = 0, !.nC[c] = 0, !.fut[c] = Sweep(@, Cancelled(c))]
   ELSE IF S.table[ident[c]] # 0 THEN [S EXCEPT !.st[c] = "refused", !.nT[c] = 0, !.nC[c] = 0]
   ELSE [S EXCEPT !.st[c] = "outstanding", !.table[ident[c]] = c, !.task[c] = "start", !.tracked[c] = TRUE,
                  !.due[c] = EffDelay(c, d), !.nT[c] = 0, !.nC[c] = 0]
@@ -137,7 +171,7 @@ DoTimeout(S, c, op) ==
                       !.nT[c] = @ + 1,                                  \* cache.on_timeout()
                       !.late = @ \/ shutdown]
       S2 == DoNested(S1, op)
-      S3 == [S2 EXCEPT !.fut[c] = IF @ = "pending" THEN (IF futk[c] = "exc" THEN "exception" ELSE "result") ELSE @]
+      S3 == [S2 EXCEPT !.fut[c] = Sweep(@, TimeoutVals(c))]
   IN [S3 EXCEPT !.tracked[c] = FALSE, !.task[c] = "dying", !.due[c] = 0]  \* cancel_pending_task(cache); task ends
 
 (* what the body of a test handler does: nothing, fail, pop(identity) (directly or as a re-entrant response), or   *)
@@ -167,7 +201,7 @@ Add(c, d) ==
   /\ \/ st[c] = "new" /\ \A b \in Caches : b < c => st[b] # "new"
      \/ st[c] = "refused"
   /\ Apply(DoAdd(Cur, c, d))
-  /\ UNCHANGED <<params, zombie, shutdown, ovr, readds, hpend>>
+  /\ UNCHANGED <<params, zombie, shutdown, rcdown, ovr, readds, hpend>>
 
 (* the same cache object, whose request has ended, is registered again (a new request).  When add() refuses it  *)
 (* (duplicate identity / shut down) the ended request stays what it was.                                         *)
@@ -176,33 +210,33 @@ ReAdd(c, d) ==
   /\ IF ~shutdown /\ table[ident[c]] = 0
      THEN /\ Apply(DoAdd(Cur, c, d))
           /\ zombie' = [zombie EXCEPT ![c] = (task[c] = "dying")]
-     ELSE /\ fut' = [fut EXCEPT ![c] = IF shutdown /\ @ = "pending" THEN "cancelled" ELSE @]
+     ELSE /\ fut' = [fut EXCEPT ![c] = IF shutdown THEN Sweep(@, Cancelled(c)) ELSE @]
           /\ UNCHANGED <<st, task, tracked, due, table, nT, late, nC, zombie>>
   /\ readds' = readds + 1
-  /\ UNCHANGED <<params, shutdown, ovr, hpend>>
+  /\ UNCHANGED <<params, shutdown, rcdown, ovr, hpend>>
 
 Pop(i) == /\ Apply(DoPop(Cur, i))
-          /\ UNCHANGED <<params, zombie, shutdown, ovr, readds, hpend>>
+          /\ UNCHANGED <<params, zombie, shutdown, rcdown, ovr, readds, hpend>>
 
 (* a response arrives and is dispatched to a retrieve_cache handler whose body does <<k, a>> *)
 Respond(i, k, a) ==
   /\ HOk(k, a) /\ (table[i] = 0 => k = "none")
   /\ (k = "add" => HasNew(Cur))
   /\ Apply(DoRespond(Cur, i, <<k, a>>))
-  /\ UNCHANGED <<params, zombie, shutdown, ovr, readds, hpend>>
+  /\ UNCHANGED <<params, zombie, shutdown, rcdown, ovr, readds, hpend>>
 
 (* ... to a coroutine handler: the wrapper claims the cache now, the body is a later step *)
 RespondCo(i) ==
   /\ CoHandlers /\ hpend = 0
   /\ Apply(DoPop(Cur, i))
   /\ hpend' = table[i]
-  /\ UNCHANGED <<params, zombie, shutdown, ovr, readds>>
+  /\ UNCHANGED <<params, zombie, shutdown, rcdown, ovr, readds>>
 
 HandlerBody(k, a) ==
   /\ hpend # 0 /\ NestOk(k, a) /\ (k = "add" => HasNew(Cur))
   /\ Apply(DoNested(Cur, <<k, a>>))
   /\ hpend' = 0
-  /\ UNCHANGED <<params, zombie, shutdown, ovr, readds>>
+  /\ UNCHANGED <<params, zombie, shutdown, rcdown, ovr, readds>>
 
 (* first step of the task: delay_runner starts sleeping; with delay 0 register_task runs _on_timeout directly *)
 TaskStart(c, k, a) ==
@@ -214,34 +248,34 @@ TaskStart(c, k, a) ==
      ELSE /\ op = <<"none", 0>>
           /\ task' = [task EXCEPT ![c] = "armed"]
           /\ UNCHANGED <<st, tracked, due, table, fut, nT, late, nC>>
-  /\ UNCHANGED <<params, zombie, shutdown, ovr, readds, hpend>>
+  /\ UNCHANGED <<params, zombie, shutdown, rcdown, ovr, readds, hpend>>
 
 Tick == /\ \E c \in Caches : task[c] = "armed" /\ due[c] > 0
         /\ due' = [c \in Caches |-> IF task[c] = "armed" /\ due[c] > 0 THEN due[c] - 1 ELSE due[c]]
-        /\ UNCHANGED <<params, st, task, zombie, tracked, table, fut, nT, late, nC, shutdown, ovr, readds, hpend>>
+        /\ UNCHANGED <<params, st, task, zombie, tracked, table, fut, nT, late, nC, shutdown, rcdown, ovr, readds, hpend>>
 
 (* the loop runs the timer handle: the sleep future is completed, the task's wake-up is queued *)
 TimerFire(c) == /\ task[c] = "armed" /\ due[c] = 0
                 /\ task' = [task EXCEPT ![c] = "fired"]
-                /\ UNCHANGED <<params, st, zombie, tracked, due, table, fut, nT, late, nC, shutdown, ovr, readds, hpend>>
+                /\ UNCHANGED <<params, st, zombie, tracked, due, table, fut, nT, late, nC, shutdown, rcdown, ovr, readds, hpend>>
 
 (* the queued wake-up runs: delay_runner calls _on_timeout *)
 TaskWake(c, k, a) == /\ task[c] = "fired" /\ NestOk(k, a)
                      /\ (k = "add" => HasNew(Cur))
                      /\ Apply(DoTimeout(Cur, c, <<k, a>>))
-                     /\ UNCHANGED <<params, zombie, shutdown, ovr, readds, hpend>>
+                     /\ UNCHANGED <<params, zombie, shutdown, rcdown, ovr, readds, hpend>>
 
 (* CancelledError delivered (if any) and done_cb of the current task: _pending_tasks.pop(name) *)
 Reap(c) == /\ task[c] = "dying"
            /\ task' = [task EXCEPT ![c] = "gone"]
            /\ tracked' = [tracked EXCEPT ![c] = FALSE]
-           /\ UNCHANGED <<params, st, zombie, due, table, fut, nT, late, nC, shutdown, ovr, readds, hpend>>
+           /\ UNCHANGED <<params, st, zombie, due, table, fut, nT, late, nC, shutdown, rcdown, ovr, readds, hpend>>
 
 (* done_cb of an earlier task of the same cache object *)
 ReapOld(c) == /\ zombie[c]
               /\ zombie' = [zombie EXCEPT ![c] = FALSE]
               /\ tracked' = [tracked EXCEPT ![c] = IF ReapOwnOnly THEN @ ELSE FALSE]
-              /\ UNCHANGED <<params, st, task, due, table, fut, nT, late, nC, shutdown, ovr, readds, hpend>>
+              /\ UNCHANGED <<params, st, task, due, table, fut, nT, late, nC, shutdown, rcdown, ovr, readds, hpend>>
 
 (* TaskManager.cancel_all_pending_tasks(): cancel_pending_task for every name in _pending_tasks *)
 CancelAll(S) ==
@@ -253,29 +287,46 @@ CancelAll(S) ==
 Clear ==
   /\ LET S == CancelAll(Cur) IN
        Apply([S EXCEPT !.table = [i \in Idents |-> 0],
-                       !.st = [c \in Caches |-> IF table[ident[c]] = c /\ S.st[c] = "outstanding" THEN "cleared"
+                       !.st = [c \in Caches |-> IF table[ident[c]] = c /\ S.st[c] \in {"outstanding", "stopped"} THEN "cleared"
                                                  ELSE S.st[c]]])
-  /\ UNCHANGED <<params, zombie, shutdown, ovr, readds, hpend>>
+  /\ UNCHANGED <<params, zombie, shutdown, rcdown, ovr, readds, hpend>>
 
-(* the synchronous part of RequestCache.shutdown() *)
+(* the synchronous part of RequestCache.shutdown(): whenever it is called - the first time, again, or after the     *)
+(* task manager half was already torn down - every request still registered is dropped and its futures cancelled  *)
 Shutdown ==
-  /\ ~shutdown /\ shutdown' = TRUE
-  /\ LET S == CancelAll(Cur)
-         inT(c) == table[ident[c]] = c IN
-       Apply([S EXCEPT !.table = [i \in Idents |-> 0],
-                       !.fut = [c \in Caches |-> IF inT(c) /\ S.fut[c] = "pending" THEN "cancelled" ELSE S.fut[c]],
-                       !.st = [c \in Caches |-> IF inT(c) /\ S.st[c] = "outstanding" THEN "halted" ELSE S.st[c]]])
+  /\ shutdown' = TRUE /\ rcdown' = TRUE
+  /\ IF ShutGuard /\ shutdown
+     THEN UNCHANGED <<st, task, tracked, due, table, fut, nT, late, nC>>
+     ELSE LET S == CancelAll(Cur)
+              inT(c) == table[ident[c]] = c IN
+            Apply([S EXCEPT !.table = [i \in Idents |-> 0],
+                            !.fut = [c \in Caches |-> IF inT(c) THEN Sweep(S.fut[c], Cancelled(c)) ELSE S.fut[c]],
+                            !.st = [c \in Caches |-> IF inT(c) /\ S.st[c] \in {"outstanding", "stopped"} THEN "halted"
+                                                      ELSE S.st[c]]])
   /\ UNCHANGED <<params, zombie, ovr, readds, hpend>>
 
-PassEnter(t, f) == /\ ~ovr.on /\ ovr' = [on |-> TRUE, t |-> t, filt |-> f]
-                   /\ UNCHANGED <<params, st, task, zombie, tracked, due, table, fut, nT, late, nC, shutdown, readds, hpend>>
-PassExit == /\ ovr.on /\ ovr' = NoOvr
-            /\ UNCHANGED <<params, st, task, zombie, tracked, due, table, fut, nT, late, nC, shutdown, readds, hpend>>
+(* the synchronous part of the inherited TaskManager.shutdown_task_manager(): raises the flag and cancels every    *)
+(* registered task; identifiers and futures are not its business (the requests stay registered, frozen)           *)
+ShutdownTM ==
+  /\ TMShutdown
+  /\ shutdown' = TRUE
+  /\ IF shutdown                                              \* "if self._shutdown: return"
+     THEN UNCHANGED <<st, task, tracked, due, table, fut, nT, late, nC>>
+     ELSE LET S == CancelAll(Cur) IN
+            Apply([S EXCEPT !.st = [c \in Caches |-> IF S.st[c] = "outstanding" THEN "stopped" ELSE S.st[c]]])
+  /\ UNCHANGED <<params, zombie, rcdown, ovr, readds, hpend>>
 
-(* somebody else completes / cancels the managed future while the request is outstanding *)
-FutExt(c) == /\ ExtFut /\ fut[c] = "pending" /\ st[c] = "outstanding"
-             /\ fut' = [fut EXCEPT ![c] = "ext"]
-             /\ UNCHANGED <<params, st, task, zombie, tracked, due, table, nT, late, nC, shutdown, ovr, readds, hpend>>
+PassEnter(t, f) == /\ ~ovr.on /\ ovr' = [on |-> TRUE, t |-> t, filt |-> f]
+                   /\ UNCHANGED <<params, st, task, zombie, tracked, due, table, fut, nT, late, nC, shutdown, rcdown, readds, hpend>>
+PassExit == /\ ovr.on /\ ovr' = NoOvr
+            /\ UNCHANGED <<params, st, task, zombie, tracked, due, table, fut, nT, late, nC, shutdown, rcdown, readds, hpend>>
+
+(* somebody else completes / cancels one of the managed futures while the request is outstanding *)
+NExt == Cardinality({p \in Caches \X (1..MaxFut) : p[2] \in DOMAIN fut[p[1]] /\ fut[p[1]][p[2]] = "ext"})
+FutExt(c, j) ==
+             /\ NExt < ExtFut /\ j \in DOMAIN fut[c] /\ fut[c][j] = "pending" /\ st[c] = "outstanding"
+             /\ fut' = [fut EXCEPT ![c][j] = "ext"]
+             /\ UNCHANGED <<params, st, task, zombie, tracked, due, table, nT, late, nC, shutdown, rcdown, ovr, readds, hpend>>
 
 Next == \/ \E c \in Caches, d \in Delays : Add(c, d)
         \/ \E c \in Caches, d \in Delays : ReAdd(c, d)
@@ -291,17 +342,21 @@ Next == \/ \E c \in Caches, d \in Delays : Add(c, d)
         \/ \E c \in Caches : ReapOld(c)
         \/ Clear
         \/ Shutdown
+        \/ ShutdownTM
         \/ \E t \in PassTimeouts, f \in Filters : PassEnter(t, f)
         \/ PassExit
-        \/ \E c \in Caches : FutExt(c)
+        \/ \E c \in Caches, j \in 1..MaxFut : FutExt(c, j)
 
 Spec == Init /\ [][Next]_vars
 
 (* ------------------------------------- properties (C10) ----------------------------------------- *)
-TypeOK == /\ st \in [Caches -> {"new", "outstanding", "claimed", "timedout", "cleared", "halted", "refused", "rejected"}]
+TypeOK == /\ st \in [Caches -> {"new", "outstanding", "claimed", "timedout", "cleared", "halted", "refused", "rejected",
+                                 "stopped"}]
           /\ task \in [Caches -> {"none", "start", "armed", "fired", "dying", "gone"}]
           /\ table \in [Idents -> Caches \cup {0}]
-          /\ fut \in [Caches -> {"none", "pending", "result", "exception", "cancelled", "ext"}]
+          /\ \A c \in Caches : /\ DOMAIN fut[c] = DOMAIN futk[c] /\ Len(futk[c]) <= MaxFut
+                               /\ \A j \in DOMAIN fut[c] : fut[c][j] \in {"pending", "result", "exception", "cancelled", "ext"}
+          /\ rcdown => shutdown
           /\ \A c \in Caches : nT[c] \in 0..3 /\ nC[c] \in 0..3 /\ due[c] \in Nat
           /\ hpend \in Caches \cup {0}
 
@@ -311,19 +366,30 @@ ExactlyOnce        == \A c \in Caches : nT[c] <= 1 /\ (nT[c] = 1 => st[c] = "tim
 ClaimedOnce        == \A c \in Caches : nC[c] <= 1 /\ (nC[c] = 1 <=> st[c] = "claimed")
 NoTimeoutAfterClaim == \A c \in Caches : st[c] = "claimed" => nT[c] = 0
 (* ... and every request that is still outstanding has its time-out ahead of it *)
-OutstandingWillEnd == \A c \in Caches : st[c] = "outstanding" => task[c] \in Live /\ tracked[c]
+OutstandingWillEnd == \A c \in Caches : st[c] = "outstanding" => task[c] \in Live /\ tracked[c] /\ ~shutdown
 (* a response after the time-out (or after any other end) finds nothing; the table is exactly the outstanding set *)
-TableAgrees        == \A i \in Idents, c \in Caches : table[i] = c <=> (st[c] = "outstanding" /\ ident[c] = i)
+Registered(c)      == st[c] \in {"outstanding", "stopped"}
+TableAgrees        == \A i \in Idents, c \in Caches : table[i] = c <=> (Registered(c) /\ ident[c] = i)
 LateResponseFindsNothing == \A c \in Caches : st[c] \in Ended => table[ident[c]] # c
-UniqueIdentity     == \A a, b \in Caches : st[a] = "outstanding" /\ st[b] = "outstanding" /\ ident[a] = ident[b] => a = b
-FuturesCompletedOnTimeout == \A c \in Caches : st[c] = "timedout" => fut[c] # "pending"
-AfterShutdown      == shutdown => /\ ~late
+UniqueIdentity     == \A a, b \in Caches : Registered(a) /\ Registered(b) /\ ident[a] = ident[b] => a = b
+(* every future tied to a request that timed out is done: completed by the time-out, or by somebody else before *)
+FuturesCompletedOnTimeout == \A c \in Caches : st[c] = "timedout" => NoPending(fut[c])
+(* once shutdown() has been called: nothing is registered, nothing can fire, every future tied to a request that   *)
+(* was registered at that moment, or was offered to add() since the flag went up, is done                          *)
+AfterShutdown      == rcdown  => /\ ~late
                                   /\ \A i \in Idents : table[i] = 0
-                                  /\ \A c \in Caches : /\ st[c] # "outstanding"
+                                  /\ \A c \in Caches : /\ ~Registered(c)
                                                        /\ task[c] \notin Live
-                                                       /\ st[c] = "halted" => fut[c] # "pending" /\ nT[c] = 0
-                                                       /\ st[c] = "rejected" => fut[c] # "pending" /\ nT[c] = 0
+                                                       /\ st[c] = "halted" => NoPending(fut[c]) /\ nT[c] = 0
+                                                       /\ st[c] = "rejected" => NoPending(fut[c]) /\ nT[c] = 0
+(* (the part of AfterShutdown that only shutdown() itself can break - used by the combined control configuration) *)
+NothingRegisteredAfterShutdown == rcdown => \A i \in Idents : table[i] = 0
+(* once the flag is up (shutdown() or the task manager teardown): no time-out is left that could fire, nothing is  *)
+(* outstanding any more, and add() refuses (st "rejected") - see DoAdd                                            *)
+AfterFlag          == shutdown => \A c \in Caches : /\ st[c] # "outstanding" /\ task[c] \notin Live
+                                                    /\ st[c] = "rejected" => NoPending(fut[c]) /\ nT[c] = 0
+                                                    /\ st[c] = "stopped" => nT[c] = 0 /\ nC[c] = 0
 NoLateTimeout      == ~late
 (* nothing of an ended request is left behind that could still fire *)
-EndedIsQuiet       == \A c \in Caches : st[c] \in Ended \cup {"refused", "rejected", "new"} => task[c] \notin Live
+EndedIsQuiet       == \A c \in Caches : st[c] \in Ended \cup {"refused", "rejected", "new", "stopped"} => task[c] \notin Live
 =============================================================================
